@@ -467,9 +467,15 @@ class continuous_frame:
                 if frame.fin:
                     self.utf8_decoder = None
                 try:
+                    if decoder is False:
+                        # an earlier fragment of this message was refused
+                        raise UnicodeDecodeError(
+                            "utf-8", b"", 0, 0, "message already refused"
+                        )
                     decoder.decode(frame.data, bool(frame.fin))
                 except UnicodeDecodeError:
-                    self.utf8_decoder = None
+                    # what is left of the message is refused as well
+                    self.utf8_decoder = None if frame.fin else False
                     raise WebSocketPayloadException(
                         f"cannot decode: {repr(frame.data)}"
                     )
